@@ -72,7 +72,10 @@ type Request struct {
 
 // SetMsg initializes the request from an already decoded message.
 func (r *Request) SetMsg(m *dns.Msg) {
-	*r = Request{msg: m}
+	// hasOPT is taken at birth: the edns handler attaches an OPT to every
+	// request it forwards, so the message cannot answer "did the client
+	// send one" afterwards.
+	*r = Request{msg: m, hasOPT: m != nil && m.IsEdns0() != nil}
 }
 
 // NewRequest returns a message-born Request. Chain.Reset does this with
@@ -201,10 +204,7 @@ func (r *Request) Opcode() int {
 
 // HasOPT reports whether the request carried an OPT record.
 func (r *Request) HasOPT() bool {
-	if r.wireBorn() {
-		return r.hasOPT
-	}
-	return r.msg != nil && r.msg.IsEdns0() != nil
+	return r.hasOPT
 }
 
 // UDPSize returns the client's advertised EDNS UDP size (0 without OPT).
